@@ -224,7 +224,7 @@ def _evaluate(case, ctx, b, prog, opts):
         stripped = True
         v_ref = jsoracle.validator(ref_for_cmp, "2020-12")
     diff_kw = jsoracle.keywords(ref_schema) & SPELLED_DIFFERENTLY[version]
-    for item in case["data"]:
+    for item in list(case["data"]) + _bound_probes(ref_schema, case["data"]):
         d, tag = item["d"], item.get("tag", "?")
         if jsoracle.has_int_valued_float(d):
             ctx.h("skipped:int_valued_float")  # 1.0 is an integer for 2019-09+/draft-07 but not for Draft 4: outside the common domain
@@ -264,3 +264,62 @@ def _strip_items_false(node):
     if isinstance(node, list):
         return [_strip_items_false(x) for x in node]
     return node
+
+
+_BOUND_KW = ("minimum", "maximum", "exclusiveMinimum", "exclusiveMaximum")
+
+
+def _bound_probes(schema, data, limit=48):
+    """Data derived from the generated ones (no further randomness): every number of a generated datum is replaced by each bound
+    written in the 2020-12 schema and by its neighbours, so that the two validators are also compared exactly at, just below and
+    just above every numeric bound."""
+    bounds = set()
+
+    def collect(node):
+        if isinstance(node, dict):
+            for k, v in node.items():
+                if k in _BOUND_KW and isinstance(v, (int, float)) and not isinstance(v, bool):
+                    bounds.add(v)
+                collect(v)
+        elif isinstance(node, list):
+            for v in node:
+                collect(v)
+
+    collect(schema)
+    if not bounds:
+        return []
+    cands = sorted({b + delta for b in bounds for delta in (0, 1, -1, 0.5, -0.5)})
+    cands = [int(c) if float(c).is_integer() else c for c in cands]
+
+    def positions(d, path=()):
+        if isinstance(d, bool):
+            return
+        if isinstance(d, (int, float)):
+            yield path
+        elif isinstance(d, dict):
+            for k in sorted(d):
+                yield from positions(d[k], path + (k,))
+        elif isinstance(d, list):
+            for i, v in enumerate(d):
+                yield from positions(v, path + (i,))
+
+    def replace(d, path, v):
+        if not path:
+            return v
+        if isinstance(d, dict):
+            return {k: (replace(x, path[1:], v) if k == path[0] else x) for k, x in d.items()}
+        return [replace(x, path[1:], v) if i == path[0] else x for i, x in enumerate(d)]
+
+    out, seen = [], set()
+    for item in data:
+        for path in list(positions(item["d"]))[:4]:
+            for v in cands:
+                d2 = replace(item["d"], path, v)
+                key = json.dumps(d2, sort_keys=True)
+                if key in seen:
+                    continue
+                seen.add(key)
+                out.append({"d": d2, "tag": "bound_probe"})
+                if len(out) >= limit:
+                    return out
+    return out
